@@ -102,6 +102,10 @@ def r09b(ctx, repo, T):
 def is_program_series(T, fi, call):
     recv = call.func.value
     t = T.type_at(recv, fi, call)
+    if fi.qualname.startswith("ProgramInstructions."):
+        # everything ProgramInstructions holds is a program series (spending, capacity, coverage overwrites): an overwrite handed in by the
+        # caller is one too, whatever local name it goes by
+        return True
     if is_inst(t) and T.isa(t, "utils", "TimeSeries"):
         # which attribute does it come from
         a = astq.attr_in_path(recv, PROGRAM_SERIES_ATTRS)
